@@ -385,18 +385,37 @@ class SymInt:
         # general floor division built from truncating division
         if la >= 0 and lb >= 0:
             # both operands non-negative (a zero divisor was forked away above): unsigned division is exact
-            q = z3.UDiv(ea, eb)
-            r = z3.URem(ea, eb)
+            # the divider is built only as wide as the operand intervals need (both operands and
+            # hence quotient and remainder fit k bits unsigned): keeps division terms small
+            k = max(ha.bit_length(), hb.bit_length(), 1)
+            if k < W:
+                xa, xb = z3.Extract(k - 1, 0, ea), z3.Extract(k - 1, 0, eb)
+                q = z3.ZeroExt(W - k, z3.UDiv(xa, xb))
+                r = z3.ZeroExt(W - k, z3.URem(xa, xb))
+            else:
+                q = z3.UDiv(ea, eb)
+                r = z3.URem(ea, eb)
             if want == "div":
                 return _mk(q, la // max(hb, 1), ha // max(lb, 1))
             return _mk(r, 0, min(ha, max(hb, 1) - 1))
+        m = max(abs(la), abs(ha))
+        mb = max(abs(lb), abs(hb))
+        # k bits two's complement hold both operands, the truncated quotient (|q| <= |a|, so even
+        # MIN / -1 fits because of the extra bit), q - 1, the remainder and r + b
+        k = max(_bitlen_bound(la, ha), _bitlen_bound(lb, hb)) + 2
+        if k < W:
+            xa, xb = z3.Extract(k - 1, 0, ea), z3.Extract(k - 1, 0, eb)
+            q = xa / xb  # bvsdiv (truncating)
+            r = z3.SRem(xa, xb)
+            adj = z3.And(r != 0, (r < 0) != (xb < 0))
+            if want == "div":
+                return _mk(z3.SignExt(W - k, z3.If(adj, q - 1, q)), -m - 1, m + 1)
+            return _mk(z3.SignExt(W - k, z3.If(adj, r + xb, r)), -mb, mb)
         q = ea / eb  # bvsdiv (truncating)
         r = z3.SRem(ea, eb)
         adj = z3.And(r != 0, (r < 0) != (eb < 0))
-        m = max(abs(la), abs(ha))
         if want == "div":
             return _mk(z3.If(adj, q - 1, q), -m - 1, m + 1)
-        mb = max(abs(lb), abs(hb))
         return _mk(z3.If(adj, r + eb, r), -mb, mb)
 
     def __floordiv__(s, o):
